@@ -241,6 +241,7 @@ class Spy:
         self.calls = []
 
     def __call__(self, *args, **kwargs):
+        self.seen = enc.es(args[0]) if args and hasattr(args[0], 'grid') else None  # value of `state` at evaluation time
         value = self.fn(*args, **kwargs)
         self.calls.append((args, kwargs, value))
         return value
@@ -250,6 +251,8 @@ def spied_step(ctx, env, state, action, label, payload_fn):
     rs, ts = env._reward_function, env._termination_function
     rs.calls.clear()
     ts.calls.clear()
+    before = enc.es(state)
+    rs.snapshots = ts.snapshots = None
     ok, res = call_real(env.functional_step, state, action)
     ctx.ev()
     if not ok:
@@ -270,6 +273,10 @@ def spied_step(ctx, env, state, action, label, payload_fn):
                         'next_state' if args[2] is ns else 'state' if args[2] is state else 'other']
             ctx.violation('gridworld', f'gridworld.{name}_arguments',
                           f'{label}: {name} function received {what} instead of (state, action, next_state)', 'env_step', payload_fn())
+        if getattr(spy, 'seen', None) is not None and spy.seen != before:
+            ctx.violation('gridworld', f'gridworld.{name}_sees_modified_state',
+                          f'{label}: when the {name} function was evaluated its `state` argument no longer had the value it had before '
+                          f'the step (the same step\'s (state, action, next_state) must be used)', 'env_step', payload_fn())
         if ret is not value and ret != value:
             ctx.violation('gridworld', f'gridworld.{name}_value', f'{label}: step returned {value!r} but the {name} function returned {ret!r}',
                           'env_step', payload_fn())
@@ -359,13 +366,14 @@ def drive_compositions(ctx, n, log):
 
                 def payload(st=st, action=action, k=k):
                     return {'comp_seed': [ctx.seed, k], 'state': enc.state_to_json(st), 'action': action.name}
+                pre = dyndrive.copy_state(state)  # the step must be judged against the state as it was *before* the step
                 res = spied_step(ctx, env, state, action, f'composition {comp.id}', payload)
                 if res is None:
                     break
                 ns, r, d = res
                 exit_agreement(ctx, log, ns, f'composition {comp.id}', payload)
-                want_r = refmodel.ref_reward(full, types, state, action, ns)
-                want_d = refmodel.ref_terminating(comp.terminating, types, state, action, ns)
+                want_r = refmodel.ref_reward(full, types, pre, action, ns)
+                want_d = refmodel.ref_terminating(comp.terminating, types, pre, action, ns)
                 if not close(r, want_r) or d is not want_d:
                     ctx.violation('gridworld', 'gridworld.step_values',
                                   f'composition {comp.id}: step returned ({r!r}, {d!r}), reference ({want_r!r}, {want_d!r})',
@@ -409,6 +417,7 @@ def drive_shipped(ctx, log, seeds, steps):
 
                     def payload(state=state, action=action):
                         return {'config': name, 'state': enc.state_to_json(state), 'action': action.name}
+                    pre = dyndrive.copy_state(state)
                     res = spied_step(ctx, env, state, action, f'{name} seed={seed} t={t}', payload)
                     if res is None:
                         break
@@ -416,7 +425,7 @@ def drive_shipped(ctx, log, seeds, steps):
                     exit_agreement(ctx, log, ns, f'{name} seed={seed} t={t}', payload)
                     if have_ref:
                         try:
-                            want_r = refmodel.ref_reward(full, types, state, action, ns)
+                            want_r = refmodel.ref_reward(full, types, pre, action, ns)
                         except AssertionError:
                             ctx.cat('shipped.precondition_unmet')
                             want_r = None
@@ -427,7 +436,7 @@ def drive_shipped(ctx, log, seeds, steps):
                                               f'{name} t={t}: step reward {r!r}, reference of the configured list {want_r!r} '
                                               f'({action.name}, agent {enc.ea(state.agent)} -> {enc.ea(ns.agent)})', 'env_step', payload())
                     try:
-                        want_d = refmodel.ref_terminating(data['terminating_function'], types, state, action, ns)
+                        want_d = refmodel.ref_terminating(data['terminating_function'], types, pre, action, ns)
                         if d is not want_d:
                             ctx.violation('gridworld', 'shipped.termination', f'{name} t={t}: flag {d!r}, reference {want_d!r}', 'env_step', payload())
                     except KeyError:
